@@ -1134,6 +1134,26 @@ def _(m):
     ], None, also=(m["Fiber"],))
 
 
+@mutant("c17_evict_on_looked_up_in_the_loop_order_directly", "C17")
+def _(m):
+    Tr = m["traffic"].Traffic
+    patch_method(Tr, "buffetTraffic",
+                 "        if evict_on == \"root\":\n            evict_end = 0\n        else:\n            evict_end = order.index(loop_ranks[evict_on]) + 1",
+                 "        evict_end = order.index(evict_on) + 1 if evict_on in order else 0")
+
+
+@mutant("c17_only_bound_traces_cleaned_up", "C17")
+def _(m):
+    Tr = m["traffic"].Traffic
+    patch_method(Tr, "_bufferTraffic", [
+        ("    for key, fn in next_use_traces.items():\n        traces[key] = FileReadBackwards(fn)\n",
+         "    bound = set((b[\"tensor\"], b[\"rank\"], b[\"type\"]) for b in bindings)\n"
+         "    for key, fn in next_use_traces.items():\n        if key in bound:\n            traces[key] = FileReadBackwards(fn)\n"),
+        ("    for fn in read_write_traces.values():\n        os.remove(fn)\n\n    for fn in next_use_traces.values():\n        os.remove(fn)\n",
+         "    for key in traces:\n        os.remove(read_write_traces[key])\n        os.remove(next_use_traces[key])\n"),
+    ], None)
+
+
 def apply(name):
     if name not in MUTANTS:
         raise SystemExit(f"unknown mutant {name}; known: {sorted(MUTANTS)}")
